@@ -270,6 +270,9 @@ def dynamise(rng, src):
     for i, l in enumerate(lines):
         if l.lstrip().startswith(("do ", "jasi", "end", "start")) or '"' in l:
             continue
+        if "small pass 1) start return" in l:
+            continue        # langgen's recursion guard: making it false would recurse until the stack budget
+
         for m in re.finditer(r"(?<![\w.\]])\d+(?![\w.\[])", l):
             cands.append((i, m.start(), m.end()))
     if not cands:
@@ -340,9 +343,8 @@ def site_of_panic(text):
 
 
 def run_model_safe(env, name, impl_recs, order, depth=0):
-    """langrun.run_model with a large native stack (a generated program whose recursion guard
-    was made dynamically false recurses until the model's fuel is gone: 60 000 nested calls
-    of the extracted evaluator).  If the model process still dies, the shard is split until
+    """langrun.run_model with a larger native stack and a memory cap (deeply recursive generated
+    programs need thousands of nested calls of the extracted evaluator).  If the model process still dies, the shard is split until
     the offending case is isolated; that case gets no model record (inconclusive)."""
     inp = os.path.join(env.work, name + ".model.in")
     outp = os.path.join(env.work, name + ".model")
@@ -352,7 +354,8 @@ def run_model_safe(env, name, impl_recs, order, depth=0):
             if not r or not r.get("ast") or not r.get("plan"):
                 continue
             f.write("case %s\n%s\n%s\nend %s\n" % (cid, r["ast"], r["plan"], cid))
-    cmd = "ulimit -s unlimited 2>/dev/null || ulimit -s 4000000 2>/dev/null; exec '%s' lang %s '%s' '%s'" % (
+    # 1 GiB of stack, 6 GiB of address space: a runaway case kills only this process
+    cmd = "ulimit -s 1048576 2>/dev/null; ulimit -v 6291456 2>/dev/null; exec '%s' lang %s '%s' '%s'" % (
         common.NSMODEL, langrun.eps_hex(), inp, outp)
     rc, out = common.sh(["bash", "-c", cmd], timeout=1200)
     if rc == 0:
